@@ -476,6 +476,10 @@ class HistRun(object):
         try:
             run_rt()
             outcome = None
+        except pyapi.ObserveMismatch as e:
+            self.note("%s -> read mismatch" % desc)
+            self.fail(self.state_prop(self.last_mi), "state", "%s/state-mismatch/%s" % (self.state_prop(self.last_mi), key),
+                      str(e), diverged=True)
         except Exception as e:
             outcome = e
         oname = type(outcome).__name__ if outcome is not None else "ok"
@@ -813,13 +817,27 @@ class HistRun(object):
     def op_arr_read(self, tg, a):
         m = tg.m
         obj = tg.pobj
+        cur = tg.pref[m.name]
+        scalar = m.type.cat in ("scalar", "enum")
+        n = len(cur)
+        idx = self._index(cur, a[1], 0) if n else None
+        sl = self._slice(n, a, True)
+        want_item = cur[idx] if n and scalar else None
+        want_slice = list(cur[sl]) if scalar else None
+        want_len = len(cur[sl])
 
         def rd():
             x = getattr(obj, m.name)
-            len(x)
+            if len(x) != n:
+                raise pyapi.ObserveMismatch("len(%s) = %d, model %d" % (tg.desc, len(x), n))
             for _ in x:
                 pass
-        return ("iterate %s" % tg.desc, rd, lambda: None, "read/" + m.kind)
+            if n and scalar and x[idx] != want_item:
+                raise pyapi.ObserveMismatch("%s[%d] reads %r, model %r" % (tg.desc, idx, x[idx], want_item))
+            got = x[sl]
+            if len(got) != want_len or (scalar and [pyapi.norm_scalar(m.type, v, []) for v in got] != want_slice):
+                raise pyapi.ObserveMismatch("%s[%s] reads %r, model %r" % (tg.desc, _sl(sl), list(got), want_slice))
+        return ("read %s, [%r], [%s]" % (tg.desc, idx, _sl(sl)), rd, lambda: None, "read/" + m.kind)
 
     # ---- composite arrays
     def _kwargs(self, et, a, bad):
@@ -935,6 +953,8 @@ class HistRun(object):
             t2, sref, sobj, sdesc = self.resolve_node((mi + op["k"]) % 2, [x for x in op["a"]])
             if t2 is t and sobj is not dobj:
                 src = (sref, sobj, sdesc)
+        elif mode == 3 and op["k"] % 3 == 0:
+            src = (dref, dobj, ddesc)          # x.copy_from(x): nothing may change
         if src is None:
             t, dref, dobj, ddesc = self.T, self.ref[mi], self.msg[mi], "m%d" % mi
             src = (self.ref[1 - mi], self.msg[1 - mi], "m%d" % (1 - mi))
@@ -945,6 +965,8 @@ class HistRun(object):
             self.probe("copy_src_limited_composite_array")
 
         def rf():
+            if sref is dref:
+                return
             new = mm.clone(sref)
             dref.clear()
             dref.update(new)
